@@ -457,6 +457,13 @@ func (r *run) doM(o *op, dump bool, probe []int, large bool) {
 	rem := r.removalType(o)
 	r.do(o, dump)
 	if !rem {
+		// a pure insertion: still walk the list once in both directions past its ends (RevRange follows
+		// the back pointers, Range the level-0 forward pointers; the Spec makes them mirror images)
+		if !large {
+			n := r.z.Len()
+			r.do(&op{K: "RevRange", A: 0, B: n + 2}, false)
+			r.do(&op{K: "Range", A: 0, B: n + 2}, false)
+		}
 		return
 	}
 	if large {
@@ -621,6 +628,24 @@ func (g *gen) mutator0(profile string, i int, n int) *op {
 			return &op{K: "Add", Ms: ms, Hs: g.hs(k)}
 		}
 	}
+	if profile == "neighbours" {
+		switch x := r.Intn(100); {
+		case x < 55:
+			if o := g.neighbourUpdate(-1, -1); o != nil {
+				return o
+			}
+		case x < 80:
+			if cur := curRun.z.Range(0, -1); len(cur) > 0 {
+				return &op{K: "RemoveB", B: cur[r.Intn(len(cur))].Value}
+			}
+		}
+		return &op{K: "AddB", A: 3 * g.score(), B: g.member(), Hs: g.hs(1)}
+	}
+	if r.Chance(1, 10) {
+		if o := g.neighbourUpdate(-1, -1); o != nil {
+			return o
+		}
+	}
 	// churn: everything
 	switch x := r.Intn(100); {
 	case x < 30:
@@ -654,6 +679,40 @@ func (g *gen) mutator0(profile string, i int, n int) *op {
 	default:
 		return &op{K: "Clear"}
 	}
+}
+
+// neighbourUpdate re-scores a member that is present so that its new score lands relative to a
+// NEIGHBOUR's score: just below, equal to, or just above the predecessor's or the successor's score.
+// These are the inputs that decide between UpdateScore's in-place fast path (which reads x.prev and
+// x.next) and delete-and-reinsert. idx / where < 0: random choice; where = 0..5 =
+// pred-1, pred, pred+1, succ-1, succ, succ+1 (a missing neighbour falls back to the node's own score).
+func (g *gen) neighbourUpdate(idx, where int) *op {
+	if curRun == nil {
+		return nil
+	}
+	cur := curRun.z.Range(0, -1)
+	if len(cur) == 0 {
+		return nil
+	}
+	if idx < 0 || idx >= len(cur) {
+		idx = g.r.Intn(len(cur))
+	}
+	if where < 0 {
+		where = g.r.Intn(6)
+	}
+	own := int(fscore(cur[idx].Score))
+	ref := own
+	if where < 3 && idx > 0 {
+		ref = int(fscore(cur[idx-1].Score))
+	}
+	if where >= 3 && idx+1 < len(cur) {
+		ref = int(fscore(cur[idx+1].Score))
+	}
+	target := ref + where%3 - 1
+	if g.r.Bool() {
+		return &op{K: "AddB", A: target, B: cur[idx].Value, Hs: g.hs(1)}
+	}
+	return &op{K: "IncrBy", A: target - own, B: cur[idx].Value, Hs: g.hs(1)}
 }
 
 // snap: half of the randomly generated score-range calls with options get their bounds moved onto
@@ -706,9 +765,17 @@ func (g *gen) query0(n int) *op {
 		return &op{K: k, B: m}
 	case "Contains":
 		c := r.Intn(3)
+		if r.Chance(1, 3) {
+			c = n + 1 + r.Intn(2) // more arguments than members (repeats)
+		}
 		ms := make([]int, c)
 		for j := range ms {
 			ms[j] = g.member()
+		}
+		if cur := curRun.z.Values(); len(cur) > 0 && r.Bool() {
+			for j := range ms {
+				ms[j] = cur[r.Intn(len(cur))] // all present
+			}
 		}
 		return &op{K: k, Ms: ms}
 	case "Count", "RangeByScore":
@@ -769,6 +836,14 @@ func (g *gen) miniSweep(run *run, probe []int) {
 	n := run.z.Len()
 	for _, k := range []string{"Len", "Size", "Empty", "Values"} {
 		run.do(&op{K: k}, false)
+	}
+	if vs := run.z.Values(); len(vs) > 0 {
+		rep := make([]int, len(vs)+2) // more arguments than members, all present
+		for i := range rep {
+			rep[i] = vs[i%len(vs)]
+		}
+		run.do(&op{K: "Contains", Ms: rep}, false)
+		run.do(&op{K: "Contains", Ms: append(append([]int(nil), vs...), probe[len(probe)-1]+7)}, false)
 	}
 	for _, m := range probe {
 		for _, k := range []string{"Score", "Rank", "RevRank"} {
@@ -869,7 +944,7 @@ func main() {
 	fullBattery = th // the exhaustive words above keep the essential battery in both tiers
 
 	// ---- 2. profiled random sequences over 4-6 members x scores -2..2, queries after every mutation ----
-	profiles := []string{"churn", "ascending", "descending", "zigzag", "rescoring", "deleting", "zeros"}
+	profiles := []string{"churn", "ascending", "descending", "zigzag", "rescoring", "deleting", "zeros", "neighbours"}
 	nrand := 20
 	if th {
 		nrand = 150
@@ -1050,6 +1125,56 @@ func main() {
 		}
 		run.do(&op{K: "Values"}, false)
 		run.emit(w, "large")
+	}
+
+	// ---- 5a. directed: score updates landing relative to the neighbours' scores right after the removal
+	// of an adjacent node (four nodes 10/20/30/40; remove none or one; then two updates, each of any
+	// remaining node to pred-1/pred/pred+1/succ-1/succ/succ+1). Thorough: all 2880; quick: a sample. ----
+	{
+		g := &gen{r: rng.Fork(), members: []int{3, 1, 2, 0}, scores: []int{-2, -1, 0, 1, 2}}
+		one := func(rem, i1, w1, i2, w2 int) {
+			run := newRun()
+			for k, m := range g.members {
+				run.do(&op{K: "AddB", A: 10 * (k + 1), B: m, Hs: g.hs(1)}, false)
+			}
+			if rem >= 0 {
+				run.doM(&op{K: "RemoveB", B: g.members[rem]}, true, g.members, false)
+			}
+			for _, iw := range [][2]int{{i1, w1}, {i2, w2}} {
+				if o := g.neighbourUpdate(iw[0], iw[1]); o != nil {
+					run.doM(o, true, g.members, false)
+				}
+			}
+			run.do(&op{K: "Range", A: 0, B: -1}, false)
+			run.do(&op{K: "RevRange", A: 0, B: -1}, false)
+			run.do(&op{K: "RangeByScore", A: -Inf, B: Inf}, false)
+			run.do(&op{K: "Values"}, false)
+			for _, m := range g.members {
+				run.do(&op{K: "Rank", B: m}, false)
+			}
+			if cur := run.z.Range(0, -1); len(cur) > 0 {
+				mid := int(fscore(cur[len(cur)/2].Score))
+				run.doM(&op{K: "RemoveRangeByScore", A: -Inf, B: mid}, true, g.members, false)
+			}
+			run.emit(w, "neighbours")
+		}
+		if th {
+			for rem := -1; rem < 4; rem++ {
+				for i1 := 0; i1 < 4; i1++ {
+					for w1 := 0; w1 < 6; w1++ {
+						for i2 := 0; i2 < 4; i2++ {
+							for w2 := 0; w2 < 6; w2++ {
+								one(rem, i1, w1, i2, w2)
+							}
+						}
+					}
+				}
+			}
+		} else {
+			for c := 0; c < 120; c++ {
+				one(g.r.Intn(5)-1, g.r.Intn(4), g.r.Intn(6), g.r.Intn(4), g.r.Intn(6))
+			}
+		}
 	}
 
 	// ---- 5b. removals aimed at the first / last / middle element, each followed by the ends battery ----
